@@ -325,6 +325,80 @@ def sector_hist_chunk(hs):
     return {'n': n, 'bad': bad, 'solver_s': D.solver_s, 'queries': D.queries}
 
 
+# ---- cash flows: Sector.AddCashFlow feeds the F and (income flows) the INC equation of a sector ------------------------------------
+
+CASH_TERMS = ['x', '+x', '-x', '(x)', '-(x)', '(-x)', '+(-x)', '-(-x)', ' - ( - x )', '( -x)', 'y', '-y']
+
+
+def cash_histories(tier):
+    out = []
+    for n in (1, 2, 3):
+        for hi, h in enumerate(itertools.product(CASH_TERMS, repeat=n)):
+            if n == 3 and tier == 'quick' and hi % 7:
+                continue
+            for inc in ([True] * n, [False] * n, [i % 2 == 0 for i in range(n)]):
+                out.append(tuple(zip(h, inc)))
+    return sorted(set(out))
+
+
+def cash_hist_chunk(hs):
+    from sfc_models.models import Model, Country
+    from sfc_models.sector import Sector
+    bad = []
+    n = 0
+    env = lambda nme: z3.Real('X_' + nme)
+    D = Decider()
+    for h in hs:
+        m = Model(); c = Country(m, 'CO'); s = Sector(c, 'S')
+        want = {'F': z3.Real('X_LAG_F'), 'INC': z3.RealVal(0)}
+        try:
+            for term, inc in h:
+                s.AddCashFlow(term, is_income=inc)
+                want['F'] = want['F'] + to_z3(term, env)
+                if inc:
+                    want['INC'] = want['INC'] + to_z3(term, env)
+        except (LogicError, SyntaxError, NotImplementedError):
+            continue
+        n += 1
+        for var in ('F', 'INC'):
+            rhs = s.EquationBlock[var].RHS()
+            try:
+                got = to_z3(rhs, env) if rhs.strip() else z3.RealVal(0)
+            except Untranslatable as e:
+                bad.append((h, '%s rendering %r does not parse: %s' % (var, rhs, e)))
+                break
+            if not z3.eq(z3.simplify(got - want[var]), z3.RealVal(0)):
+                r, mdl = D.decide([got != want[var]], ladder=False, timeout_ms=10000)
+                if r == 'sat':
+                    bad.append((h, '%s renders %r, which is not %sthe signed sum of the cash flows added' % (var, rhs, 'LAG_F plus ' if var == 'F' else '')))
+                    break
+                elif r != 'unsat':
+                    bad.append((h, 'unknown'))
+                    break
+    return {'n': n, 'bad': bad, 'solver_s': D.solver_s, 'queries': D.queries}
+
+
+REPLAY_CASH = """
+import sys, random
+from sfc_models.models import Model, Country
+from sfc_models.sector import Sector
+h = %(h)r
+m = Model(); c = Country(m, 'CO'); s = Sector(c, 'S')
+for term, inc in h: s.AddCashFlow(term, is_income=inc)
+rnd = random.Random(11); bad = False
+for var in ('F', 'INC'):
+    rhs = s.EquationBlock[var].RHS()
+    parts = [t for t, inc in h if inc or var == 'F']
+    print(var, '=', repr(rhs), '; expected', 'LAG_F plus' if var == 'F' else '', 'the sum of', parts)
+    for i in range(5):
+        env = {n: rnd.uniform(0.5, 3.0) for n in ('x', 'y', 'LAG_F')}
+        got = eval(rhs, {}, env) if rhs.strip() else 0.0
+        want = sum(eval('(%%s)' %% p.strip(), {}, env) for p in parts) + (env['LAG_F'] if var == 'F' else 0.0)
+        if abs(got - want) > 1e-9 * (1 + abs(got) + abs(want)): print('at', env, 'renders', got, 'expected', want); bad = True; break
+sys.exit(1 if bad else 0)
+"""
+
+
 REPLAY_SECTOR = '''
 import sys, random
 from sfc_models.models import Model, Country
@@ -488,6 +562,22 @@ def run(tier, seed):
                 continue
             chk.violation('sector-history:%s' % ('restated-then-same-term' if any(o == 'R' for o, _ in h) else str(h))[:80], 'history %r: %s' % (h, why), REPLAY_SECTOR % dict(h=h))
     chk.distinct |= {('sec', i) for i in range(len(shs))}
+    chs = cash_histories(tier)
+    chk.bounds['Sector cash-flow histories'] = ('%d histories of <= 3 calls of Sector.AddCashFlow (income / not income) over the spellings %r: F renders LAG_F plus the signed sum, INC '
+                                                'the signed sum of the income flows' % (len(chs), CASH_TERMS))
+    for st, r in pmap(cash_hist_chunk, [chs[i::16] for i in range(16)]):
+        if st != 'ok':
+            chk.harness_errors.append(r[:800])
+            continue
+        chk.solver_s += r['solver_s']; chk.queries += r['queries']
+        chk.obligations += r['n']
+        chk.discharged += r['n'] - len(r['bad'])
+        for h, why in r['bad']:
+            if why == 'unknown':
+                chk.inconclusive += 1
+                continue
+            chk.violation('cash-history:%s' % (str([t for t, _ in h]))[:80], 'cash-flow history %r: %s' % (h, why), REPLAY_CASH % dict(h=h))
+    chk.distinct |= {('cash', i) for i in range(len(chs))}
     lists = term_lists(tier)
     for st, r in pmap(cet_chunk, [lists[i::32] for i in range(32)]):
         if st != 'ok':
